@@ -61,7 +61,8 @@ type c02Client struct {
 	cl    *Client
 	subs  map[string][]string // filter string -> levels (acknowledged, not removed)
 	ever  map[string][]string // every filter this connection ever tried to (un)subscribe
-	links map[string]string   // link name -> full "key/channel"
+	links map[string]string   // link name -> channel
+	linkMe0 map[string]bool   // link registered with ?me=0
 }
 
 type c02Step struct {
@@ -168,7 +169,7 @@ func runC02(rec *vk.Rec, ci int) {
 			rec.Inconclusive(fmt.Sprintf("connect: rc=%d err=%v", rc, err))
 			return
 		}
-		cs = append(cs, &c02Client{cl: cl, subs: map[string][]string{}, ever: map[string][]string{}, links: map[string]string{}})
+		cs = append(cs, &c02Client{cl: cl, subs: map[string][]string{}, ever: map[string][]string{}, links: map[string]string{}, linkMe0: map[string]bool{}})
 	}
 	defer func() {
 		for _, c := range cs {
@@ -379,13 +380,19 @@ func runC02(rec *vk.Rec, ci int) {
 			name := r.Pick("l1", "l2", "q", "Z9")
 			autosub := r.Chance(50)
 			topic := chanStr(lv)
-			steps = append(steps, c02Step{Op: fmt.Sprintf("link(sub=%v)", autosub), Client: i, Arg: name + "=" + topic})
-			rep, err := c.cl.Request("link", map[string]interface{}{"name": name, "key": kAll, "channel": topic, "subscribe": autosub})
+			linkMe0 := r.Chance(35) // the shortcut is registered with the self-exclusion option
+			reqChan := topic
+			if linkMe0 {
+				reqChan += "?me=0"
+			}
+			steps = append(steps, c02Step{Op: fmt.Sprintf("link(sub=%v)", autosub), Client: i, Arg: name + "=" + reqChan})
+			rep, err := c.cl.Request("link", map[string]interface{}{"name": name, "key": kAll, "channel": reqChan, "subscribe": autosub})
 			if err != nil || rep.Status != 200 {
 				fail("link-refused", fmt.Sprintf("link request: %v %+v", err, rep), c)
 				break
 			}
 			c.links[name] = topic
+			c.linkMe0[name] = linkMe0
 			if autosub {
 				c.subs[topic] = lv
 				c.ever[topic] = lv
@@ -426,7 +433,7 @@ func runC02(rec *vk.Rec, ci int) {
 					break
 				}
 				rec.Inc("publishes_via_link")
-				checkPublish(i, tl, payload, false)
+				checkPublish(i, tl, payload, c.linkMe0[nm])
 			case mode < 80:
 				steps = append(steps, c02Step{Op: "pub-readonly-key", Client: i, Arg: topic, Expect: "401"})
 				if _, err := c.cl.Publish(kRead+"/"+topic, []byte(payload), false); err != nil {
